@@ -38,9 +38,12 @@ var c10Frames = map[string]string{
 	"trailing": `{"method":"t.a.R"} x`,
 	"stream":   `{"method":"t.a.LR","more":true}`,
 	"unicase":  `{"method":"ȺȺȺȺ.a"}`, // U+023A: its lower-case form is one byte longer
+	// a complete call followed by a stray closing bracket (a duplicated last byte): not a JSON value
+	"closebrace":   `{"method":"org.varlink.service.GetInfo"}}`,
+	"closebracket": `{"method":"t.a.R"}]`,
 }
 
-var c10KindOrder = []string{"call", "more", "oneway", "getinfo", "null", "array", "number", "string", "meth5", "morex", "empty", "params5", "trunc", "badutf", "zero", "big", "herr", "unknown", "nulmeth", "trailing", "stream", "unicase"}
+var c10KindOrder = []string{"call", "more", "oneway", "getinfo", "null", "array", "number", "string", "meth5", "morex", "empty", "params5", "trunc", "badutf", "zero", "big", "herr", "unknown", "nulmeth", "trailing", "stream", "unicase", "closebrace", "closebracket"}
 
 type c10Desc struct {
 	Frames []string `json:"frames"`          // frame kinds, each NUL-terminated on the wire
